@@ -71,7 +71,8 @@ pub fn eval(c: &Case) -> (Vec<(String, String)>, String) {
     // constraints() of the wrapper are those of the wrapped robot
     let want = Constraints::new(lim.from, lim.to, lim.weight);
     let same_fields = |a: &Constraints, b: &Constraints| {
-        let eq = |x: &[f64; 6], y: &[f64; 6]| x.iter().zip(y).all(|(p, q)| p.to_bits() == q.to_bits());
+        // bit-equal, or equal up to the degree round trip of the from_degrees construction history (an ulp)
+        let eq = |x: &[f64; 6], y: &[f64; 6]| x.iter().zip(y).all(|(p, q)| p.to_bits() == q.to_bits() || (p - q).abs() <= 1e-12 * (1.0 + p.abs()));
         eq(&a.from, &b.from) && eq(&a.to, &b.to) && eq(&a.centers, &b.centers) && eq(&a.tolerances, &b.tolerances)
             && a.sorting_weight.to_bits() == b.sorting_weight.to_bits()
     };
